@@ -64,7 +64,10 @@ impl ReconstructedSlice {
 // PROVED on the real body in unit `shred_fill` (there with the full characterisation of the regenerated shreds).
 #[verifier::external_body] /* proved-elsewhere */
 pub fn fill_missing_shreds(shreds: &mut [Option<ValidatedShred>; TOTAL_SHREDS], header: SliceHeader, raw_shreds: RawShreds, tree: &SliceMerkleTree, slice_sig: Signature)
-    ensures forall|i: int| 0 <= i < TOTAL_SHREDS && (#[trigger] old(shreds)@[i]) is Some ==> final(shreds)@[i] == old(shreds)@[i]
+    ensures
+        forall|i: int| 0 <= i < TOTAL_SHREDS && (#[trigger] old(shreds)@[i]) is Some ==> final(shreds)@[i] == old(shreds)@[i],
+        // (every empty position is filled: PROVED in unit shred_fill, clause every_missing_shred_is_regenerated_valid)
+        forall|i: int| 0 <= i < TOTAL_SHREDS && (#[trigger] old(shreds)@[i]) is None ==> final(shreds)@[i] is Some,
 { unimplemented!() }
 
 // any implementor of the trait
@@ -92,6 +95,13 @@ ensures
         forall|i: int| 0 <= i < TOTAL_SHREDS && (#[trigger] old(shreds)@[i]) is Some ==> final(shreds)@[i] == old(shreds)@[i],
         // an empty array is "not enough shreds"
         (forall|i: int| 0 <= i < TOTAL_SHREDS ==> (#[trigger] old(shreds)@[i]) is None) ==> r == Err::<ReconstructedSlice, DeshredError>(DeshredError::NotEnoughShreds),
+        // [C11.success_leaves_all_64_shreds C14.success_leaves_all_64_shreds] a successful reconstruction leaves every position of the
+        // array filled: the node can serve each of the slice's shreds afterwards
+        r is Ok ==> forall|i: int| 0 <= i < TOTAL_SHREDS ==> (#[trigger] final(shreds)@[i]) is Some,
+before `fill_missing_shreds(shreds, header, raw_shreds, &tree, slice_sig);`
+        let ghost verif_s0 = *shreds;
+after `fill_missing_shreds(shreds, header, raw_shreds, &tree, slice_sig);`
+        proof { assert forall|i: int| 0 <= i < TOTAL_SHREDS implies (#[trigger] shreds@[i]) is Some by { let _ = verif_s0@[i]; } }
 @*/
 
 // Canary: the real body under a false contract (claims deshredding never succeeds); MUST fail.
